@@ -133,6 +133,17 @@ def gen_cases(rng, tier):
     cases.append(_cmp(dl, _reorder(dl), [], "copy"))          # equal dicts built in another key order
     cases.append(_cmp(dl, _reorder(dl), ["s"], "copy"))
     cases.append(_cmp(["grouped", "g/d", [dl, cmd]], ["grouped", "g/d", [_reorder(dl), cmd]], [], "grouped-copy"))
+    # grouped records that differ only in an IGNORED field of a member that is not the first provider of that name
+    # (the second member's own `s`, its metadata, a field only it has): ignored names apply to every member
+    G2 = ["dt", [2021, 5, 6, 7, 8, 9, 0], "utc", 0]
+    mA = ["rec", ["g/a", [["varint", "x"], ["string", "s"]]], [V.I(1), V.S("one")], M]
+    mB = ["rec", ["g/b", [["varint", "y"], ["string", "s"]]], [V.I(2), V.S("two")], M]
+    for mB2, igs in ((["rec", mB[1], mB[2], {"_generated": G2}], [["_generated"], []]),
+                     (["rec", mB[1], [V.I(2), V.S("TWO")], M], [["s"], ["s", "x"], []]),
+                     (["rec", mB[1], [V.I(3), V.S("two")], M], [["y"], ["y", "_generated"], ["x"]]),
+                     (["rec", mB[1], [V.I(2), V.S("two")], {"_generated": G, "_source": V.S("elsewhere")}], [["_source"], []])):
+        for ig in igs:
+            cases.append(_cmp(["grouped", "g/pair", [mA, mB]], ["grouped", "g/pair", [mA, mB2]], ig, "grouped"))
     # the copy is rebuilt after the library's cache of generated record classes (lru_cache, 4096 entries) has turned
     # over: same descriptor, same values, but a freshly generated class
     cases.append(dict(_cmp(cmd, cmd, [], "copy"), evict=4200))
@@ -198,6 +209,12 @@ def gen_cases(rng, tier):
                     out.append(["reapply"])        # set(<the active configuration itself>)
             elif w < 6 and depth > 0:
                 out.append(["raise"])
+            elif depth < 3 and r.chance(20):
+                # a scope object made EARLY (`cm = ignore_fields_for_comparison(names)`), entered after the configuration
+                # changed: what is restored at exit is what was in force when the scope was ENTERED
+                pre = [r.choice([["set", r.sample(PROBE_NAMES, r.randint(0, 3))], ["extend", r.sample(PROBE_NAMES, r.randint(1, 2))],
+                                 ["observe"]]) for _ in range(r.randint(1, 2))]
+                out.append(["prepared", s, pre, prog(depth + 1)])
             elif depth < 3:
                 out.append([r.choice(["scope", "scope", "scope_extend"]), s, prog(depth + 1)])
             else:
@@ -359,6 +376,11 @@ def run_real(case):
                     elif c[0] == "scope":
                         with B.ignore_fields_for_comparison(list(c[1])):
                             run(c[2])
+                    elif c[0] == "prepared":
+                        cm = B.ignore_fields_for_comparison(list(c[1]))     # made now ...
+                        run(c[2])
+                        with cm:                                            # ... entered later
+                            run(c[3])
 
             try:
                 run(case["prog"])
@@ -420,9 +442,23 @@ def _field_obs(spec_obs, i):
     return spec_obs[3][i]
 
 
+def _desugar(cmds):
+    """a prepared scope means: the commands in between, then an ordinary scope"""
+    out = []
+    for c in cmds:
+        if c[0] == "prepared":
+            out += _desugar(c[2]) + [["scope", c[1], _desugar(c[3])]]
+        elif c[0] in ("scope", "scope_extend"):
+            out.append([c[0], c[1], _desugar(c[2])])
+        else:
+            out.append(c)
+    return out
+
+
 def oracle(case, obs):
     k = case["kind"]
     if k == "scope":
+        case = dict(case, prog=_desugar(case["prog"]))
         # independent stack interpreter (try/finally discipline), no model involved
         want = []
         state = {"g": sorted(case["glob"])}
@@ -537,7 +573,7 @@ def model_op(case, obs):
                 st["g"] = before
                 return ["scope", names, body]
             return [c[0]]
-        return {"op": "c12_scope", "glob": [enc_str(x) for x in case["glob"]], "prog": [conv(c) for c in case["prog"]]}
+        return {"op": "c12_scope", "glob": [enc_str(x) for x in case["glob"]], "prog": [conv(c) for c in _desugar(case["prog"])]}
     if case["rel"] == "nonrecord" or "tree_a" not in obs:
         return None
     return {"op": "c12_cmp", "descs": obs["descs"], "ig": [enc_str(x) for x in case["ig"]], "a": obs["tree_a"],
@@ -579,7 +615,7 @@ def compare(case, obs, m):
 
 def nontrivial(case, obs):
     if case["kind"] == "scope":
-        return any(c[0] == "scope" for c in case["prog"])
+        return any(c[0] in ("scope", "prepared") for c in case["prog"])
     if case["rel"] != "copy":
         return True
     return any(v[0] not in ("none", "str") for v in case["a"][2]) if case["a"][0] == "rec" else True
